@@ -28,3 +28,68 @@ package kgo
 //@   prop C06 C16
 //@   nopanic
 //@   ensures exists k in 0..len(rs)+1 :: out == rs[:k]
+
+// The three framed formats (message v0, v1, record batch) implement readerFrom in the kmsg module. A successful
+// ReadFrom consumed the fixed-size header, which is at least 26 bytes for each of them (offset 8, size 4, crc or
+// epoch 4, magic 1, ...). Assumed here for the linked (published) kmsg; proved for this tree's kmsg under C16.
+//@ func (r readerFrom) ReadFrom(src []byte) (err error)
+//@   modifies object(r)
+//@   ensures err == nil ==> len(src) >= 26
+
+// The validation closure of ProcessFetchPartition: slices in[:length], in[12:length], in[crcAt:length] are in range
+// whenever the caller established 0 <= length <= len(in).
+//@ func ProcessFetchPartition$1() (ok bool)
+//@   prop C06 C16
+//@   nopanic
+//@   requires 0 <= int(*length) && int(*length) <= len(*in)
+//@   requires *crcAt == 16 || *crcAt == 21
+//@   requires !sameobject(*r, in) && !sameobject(*r, length) && !sameobject(*r, crcAt) && !sameobject(*r, fp) && !sameobject(*r, o)
+//@   requires !sameobject(*r, lengthField) && !sameobject(*r, crcField) && !sameobject(*r, crcTable) && !sameobject(*r, r) && !sameobject(*r, kind)
+//@   modifies object(*r), fp.Err
+//@   ensures *in == old(*in) && *length == old(*length)
+
+// The batch walk never panics, whatever bytes the broker sends: every index, slice and big-endian read of the
+// framing loop is in range.
+//@ func ProcessFetchPartition(o ProcessFetchPartitionOpts, rp *kmsg.FetchResponseTopicPartition, decompressor Decompressor, hooks func(FetchBatchMetrics)) (fp FetchPartition, next int64)
+//@   prop C06 C16
+//@   nopanic
+
+// Aborted-transaction index (read_committed): a[pid] lists the first offsets of pid's aborted transactions that
+// have not been closed by an abort marker yet, smallest first.
+//@ func (a aborter) shouldAbortBatch(b *kmsg.RecordBatch) (r bool)
+//@   mode bv
+//@   prop C06 C05
+//@   nopanic
+//@   pure
+//@   ensures r <==> (b.Attributes & 0x10 != 0 && in(a, b.ProducerID) && len(a[b.ProducerID]) > 0 && b.FirstOffset >= a[b.ProducerID][0])
+
+//@ func (a aborter) trackAbortedPID(producerID int64)
+//@   prop C06 C05
+//@   nopanic
+//@   ensures !(old(in(a, producerID)) && old(len(a[producerID])) > 0) ==> (in(a, producerID) == old(in(a, producerID)))
+//@   ensures (old(in(a, producerID)) && old(len(a[producerID])) == 1) ==> !in(a, producerID)
+//@   ensures (old(in(a, producerID)) && old(len(a[producerID])) > 1) ==> in(a, producerID) && a[producerID] == old(a[producerID][1:])
+//@   ensures forall k int64 :: k != producerID ==> (in(a, k) == old(in(a, k)) && a[k] == old(a[k]))
+
+//@ spec isControlAttr(a RecordAttrs) bool = a.attrs & 0x20 != 0
+
+//@ func (a RecordAttrs) IsControl() (r bool)
+//@   mode bv
+//@   prop C06
+//@   nopanic
+//@   pure
+//@   ensures r == isControlAttr(a)
+
+// maybeKeepRecord: the consume position only moves forward, past the record; a record is kept iff it is at or
+// after the position and is neither aborted nor an unwanted control record.
+//@ func (o *ProcessFetchPartitionOpts) maybeKeepRecord(fp *FetchPartition, record *Record, abort bool) (kept bool)
+//@   prop C06 C05
+//@   nopanic
+//@   requires record.Offset < 9223372036854775807     // offsets are below MaxInt64 (listed assumption)
+//@   modifies o.Offset, fp.Records, elems(fp.Records)
+//@   ensures record.Offset < old(o.Offset) ==> !kept && o.Offset == old(o.Offset)
+//@   ensures record.Offset >= old(o.Offset) ==> o.Offset == record.Offset + 1
+//@   ensures record.Offset >= old(o.Offset) ==> (kept <==> !ite(isControlAttr(record.Attrs), !o.KeepControlRecords, abort))
+//@   ensures kept ==> len(fp.Records) == old(len(fp.Records)) + 1 && fp.Records[old(len(fp.Records))] == record
+//@   ensures kept ==> forall i in 0..old(len(fp.Records)) :: fp.Records[i] == old(fp.Records[i])
+//@   ensures !kept ==> fp.Records == old(fp.Records)
